@@ -234,6 +234,8 @@ class DotGeneralPlugin(PrimitiveLeafPlugin):
         ):
             return
 
+        lhs_val, rhs_val = self._unify_float_operands(ctx, lhs_val, rhs_val, out_spec)
+
         if self._try_lower_matmul(
             ctx,
             lhs_var,
@@ -268,6 +270,57 @@ class DotGeneralPlugin(PrimitiveLeafPlugin):
             lhs_batch,
             rhs_batch,
         )
+
+    @staticmethod
+    def _unify_float_operands(
+        ctx: LoweringContextProtocol,
+        lhs_val: ir.Value,
+        rhs_val: ir.Value,
+        out_spec: ir.Value,
+    ) -> tuple[ir.Value, ir.Value]:
+        """Cast the narrower real operand when JAX multiplies mixed float widths.
+
+        ``dot_general`` accepts operands of different float dtypes (e.g. a float64
+        carry times a float32 constant inside a scan body under x64), while
+        MatMul/Gemm/Einsum need one element type for both inputs.
+        """
+        widths = {
+            ir.DataType.FLOAT16: 0,
+            ir.DataType.BFLOAT16: 0,
+            ir.DataType.FLOAT: 1,
+            ir.DataType.DOUBLE: 2,
+        }
+        lhs_dtype = _value_ir_dtype(lhs_val)
+        rhs_dtype = _value_ir_dtype(rhs_val)
+        if (
+            lhs_dtype is None
+            or rhs_dtype is None
+            or lhs_dtype == rhs_dtype
+            or lhs_dtype not in widths
+            or rhs_dtype not in widths
+        ):
+            return lhs_val, rhs_val
+        out_dtype = _value_ir_dtype(out_spec)
+        if out_dtype in (lhs_dtype, rhs_dtype):
+            target = out_dtype
+        else:
+            target = lhs_dtype if widths[lhs_dtype] >= widths[rhs_dtype] else rhs_dtype
+
+        def _cast(value: ir.Value, hint: str) -> ir.Value:
+            casted = ctx.builder.Cast(
+                value,
+                to=int(target.value),
+                _outputs=[ctx.fresh_name(hint)],
+            )
+            casted.type = ir.TensorType(target)
+            casted.shape = value.shape
+            return casted
+
+        if lhs_dtype != target:
+            lhs_val = _cast(lhs_val, "dot_lhs_cast")
+        if rhs_dtype != target:
+            rhs_val = _cast(rhs_val, "dot_rhs_cast")
+        return lhs_val, rhs_val
 
     def _maybe_lower_complex(
         self,
